@@ -72,6 +72,7 @@ type Svc struct {
 	Deep Deep
 
 	hidden *Sub // unexported: must not be reachable
+	notes  []string // what handlers observed (readable after the link is gone)
 	lastAll All
 	kept   map[int]func(ctx context.Context, i int, str string) (string, error)
 }
@@ -388,6 +389,23 @@ func (s *Svc) ClosureFloats(ctx context.Context, row int, cb func(ctx context.Co
 	return fmt.Sprintf("%v|%v", v, err), nil
 }
 
+// ClosureOutcome invokes cb once and NOTES what the invocation handed back (the note outlives the link).
+func (s *Svc) ClosureOutcome(ctx context.Context, tag int, cb func(ctx context.Context, i int, str string) (string, error)) (string, error) {
+	s.log(ctx, "ClosureOutcome", fmt.Sprint(tag))
+	v, err := cb(ctx, tag, "outcome")
+	note := fmt.Sprintf("%d|%q|%v", tag, v, err)
+	s.mu.Lock()
+	s.notes = append(s.notes, note)
+	s.mu.Unlock()
+	return note, nil
+}
+
+func (s *Svc) Notes() []string {
+	s.mu.Lock()
+	defer s.mu.Unlock()
+	return append([]string{}, s.notes...)
+}
+
 // ClosureResult invokes cb and reports the value and error it handed back.
 func (s *Svc) ClosureResult(ctx context.Context, want int, cb func(ctx context.Context, k int) ([]int, error)) (string, error) {
 	s.log(ctx, "ClosureResult", fmt.Sprint(want))
@@ -523,6 +541,7 @@ type Remote struct {
 	RetMap      func(ctx context.Context, kind int) (map[string]int, error)
 	RetBytes    func(ctx context.Context, kind int) ([]byte, error)
 	RetNested   func(ctx context.Context, kind int) ([][]int, error)
+	ClosureOutcome func(ctx context.Context, tag int, cb func(ctx context.Context, i int, str string) (string, error)) (string, error)
 	ClosureFloats func(ctx context.Context, row int, cb func(ctx context.Context, a float32, b []float32, c int8, d []uint16, e []int32) (float32, error)) (string, error)
 	ClosureTypes  func(ctx context.Context, row int, cb func(ctx context.Context, a int, b float64, c bool, d string, e []int, f []string, g uint8, h []float64, i []bool, j int64) (string, error)) (string, error)
 	ClosureResult func(ctx context.Context, want int, cb func(ctx context.Context, k int) ([]int, error)) (string, error)
